@@ -185,7 +185,8 @@ def objLine (line : String) : Option String :=
       pure (s!"ok rev={showObjs k.reversedObjs} dj={b01 (k.isdisjoint o)} le={b01 (k.le od)} lt={b01 (k.lt od)} " ++
         s!"ge={b01 (k.ge od)} gt={b01 (k.gt od)} and={showObjs (k.and o).iterObjs} or={showObjs (k.or o).iterObjs} " ++
         s!"sub={showObjs (k.sub o).iterObjs} xor={showObjs (k.xor o).iterObjs} " ++
-        s!"eqseq={b01 (k.eqOther (.seq o))} eqset={b01 (k.eqOther (.set od))}")
+        s!"eqseq={b01 (k.eqOther (.seq o))} eqset={b01 (k.eqOther (.set od))} " ++
+        s!"rsub={showObjs (k.rsub o).iterObjs} ror={showObjs (k.ror o).iterObjs} neseq={b01 (k.neOther (.seq o))}")
   | _ => none
 
 def step (st : VState × List Label) (line : String) : (VState × List Label) × String :=
